@@ -4,3 +4,5 @@ pub mod rng;
 pub mod util;
 pub mod drive;
 pub mod irdump;
+pub mod inv;
+pub mod c04gen;
